@@ -167,6 +167,10 @@ func NewSparseChooser(devs []Dev) *SparseChooser { return &SparseChooser{devs: d
 
 // SparseExplorer enumerates all executions with at most Bound deviations.
 type SparseExplorer struct {
+	// Own, when set, selects which first-level subtrees (numbered in
+	// enumeration order) this explorer descends into; used to spread one
+	// scenario over several worker processes. The root is always run.
+	Own      func(i int) bool
 	Bound    int
 	Run      func(c *SparseChooser) bool
 	Runs     int64
@@ -201,8 +205,15 @@ func (e *SparseExplorer) Explore() {
 		if len(devs) > 0 {
 			from = devs[len(devs)-1].At + 1
 		}
+		child := 0
 		for i := c.n - 1; i >= from; i-- {
 			for alt := int(c.arity[i]) - 1; alt >= 1; alt-- {
+				if len(devs) == 0 && e.Own != nil {
+					child++
+					if !e.Own(child) {
+						continue
+					}
+				}
 				nd := make([]Dev, len(devs)+1)
 				copy(nd, devs)
 				nd[len(devs)] = Dev{i, alt}
